@@ -13,7 +13,7 @@ ACTION_TYPES = {'move', 'flag', 'flags', 'discard', 'label', 'reject', 'exec', '
 
 
 class Case:
-    __slots__ = ('conf', 'pats', 'msg', 'sub', 'name', 'dry', 'tz', 'impl', 'path', 'ast', 'model', 'spec', 'note', 'mtime', 'times')
+    __slots__ = ('conf', 'pats', 'msg', 'sub', 'name', 'dry', 'tz', 'impl', 'path', 'ast', 'model', 'spec', 'note', 'mtime', 'times', 'locale')
 
     def __init__(self, conf, pats, msg, sub='new', name='1.host', dry='0', tz=None, mtime=None):
         if '/' not in sub:
@@ -23,6 +23,7 @@ class Case:
         # mtime: the message file gets this modification time (seconds) before it is parsed; the harness then reports the
         # three stat times the evaluator saw (`times`), which are handed to the model as its file-time oracle
         self.mtime, self.times = mtime, None
+        self.locale = None      # LC_ALL the case was run under (set by the caller; None = the check's default)
 
     def request(self):
         a = ['eval', vlib.hexs(self.conf.encode('latin-1')), vlib.hexs(self.msg), vlib.hexs(self.sub.encode()),
@@ -34,7 +35,8 @@ class Case:
         return ' '.join(a)
 
     def readable(self):
-        return {'config': self.conf, 'message': repr(self.msg), 'subdir': self.sub, 'file': self.name, 'dryrun': self.dry, 'request': self.request()}
+        return {'config': self.conf, 'message': repr(self.msg), 'subdir': self.sub, 'file': self.name, 'dryrun': self.dry, 'request': self.request(),
+                **({'locale': 'LC_ALL=' + self.locale} if self.locale else {})}
 
 
 def harness(sc):
@@ -59,8 +61,9 @@ def fill_patterns(ast_tokens, pats):
     return ' '.join(res) if k == len(pats) else None
 
 
-def run_cases(h, env, cases, want_spec=True):
-    """Fills impl / model / spec of every case. impl is the text after 'RES '."""
+def run_cases(h, env, cases, want_spec=True, denv=None):
+    """Fills impl / model / spec of every case. impl is the text after 'RES '.
+    denv: environment of the Lean driver (its regex library, mbtowc and wcwidth follow LC_ALL/LC_CTYPE like the harness)."""
     out = vlib.run_batch([h], [c.request() for c in cases], env)
     mreq, sreq, idx = [], [], []
     for c, o in zip(cases, out):
@@ -91,8 +94,8 @@ def run_cases(h, env, cases, want_spec=True):
         mreq.append('M eval ' + ' '.join(tail))
         sreq.append('S eval ' + ' '.join(tail))
         idx.append(c)
-    mo = vlib.run_batch([vlib.driver_path()], mreq)
-    so = vlib.run_batch([vlib.driver_path()], sreq) if want_spec else [None] * len(idx)
+    mo = vlib.run_batch([vlib.driver_path()], mreq, denv)
+    so = vlib.run_batch([vlib.driver_path()], sreq, denv) if want_spec else [None] * len(idx)
     for c, m, s in zip(idx, mo, so):
         c.model, c.spec = m, s
     return cases
